@@ -42,14 +42,14 @@ def model_phase(q):
         cfg = checks.write_cfg("SettingsMC_%d_%s.cfg" % (depth, dumper), MC_CFG % {
             "depth": depth, "emit": 0, "fix": fix, "dumper": dumper,
             "extra": ("INVARIANT NoBad\n" if inv else "ACTION_CONSTRAINT Report\n") + "CONSTRAINT DepthBound\nVIEW View"})
-        r = vc.run_tlc("SettingsMC", cfg=cfg, timeout=2400, heap="12g", workers=min(vc.NCPU, 6), tag="SettingsMC-fixed")
+        r = vc.run_tlc("SettingsMC", cfg=cfg, timeout=2400, heap="12g", workers=min(vc.NCPU, 6), tag="SettingsMC-fixed", extra=["-noGenerateSpecTE"])
         r.scope = {"calls": depth, "alphabet": len(gen_settings.mc_ops()) - (0 if dumper == "TRUE" else 1), "model": "repaired design",
                    "dumper": dumper == "TRUE"}
         runs.append(r)
     # the code as it stands: which defect classes does the model itself exhibit within 2 calls (informational)
     cfg = checks.write_cfg("SettingsMC_asis.cfg", MC_CFG % {"depth": 3, "emit": 0, "fix": "{}", "dumper": "TRUE",
                                                             "extra": "ACTION_CONSTRAINT Report\nCONSTRAINT DepthBound\nVIEW View"})
-    r = vc.run_tlc("SettingsMC", cfg=cfg, timeout=600, heap="8g", workers=min(vc.NCPU, 6), tag="SettingsMC-asis")
+    r = vc.run_tlc("SettingsMC", cfg=cfg, timeout=600, heap="8g", workers=min(vc.NCPU, 6), tag="SettingsMC-asis", extra=["-noGenerateSpecTE"])
     r.scope = {"calls": 3, "model": "code as it stands", "dumper": True}
     r.labels = sorted(set(x.strip().strip('"') for m in re.findall(r'"MODELBAD", \{([^}]*)\}', r.out) for x in m.split(",") if x.strip()))
     return runs, r
@@ -95,9 +95,9 @@ def check_c18(pid, tier, replay):
     parts = [
         ("model_generated_behaviours", beh),
         ("exhaustive_single_calls", gen_settings.exhaustive_singles(("bare", "tuned") if q else ("bare", "song", "tuned"))),
-        ("invalid_call_pairs", gen_settings.exhaustive_pairs(rng, 200 if q else 4000)),
+        ("invalid_call_pairs", gen_settings.exhaustive_pairs(rng, 200 if q else 2500)),
         ("dumper_round_trips", gen_settings.dumper_histories(rng, 12 if q else 120)),
-        ("random", [gen_settings.random_history(rng, 14 if q else 24) for _ in range(220 if q else 4000)]),
+        ("random", [gen_settings.random_history(rng, 14 if q else 24) for _ in range(220 if q else 2500)]),
     ]
     histories = [h for (_, hs) in parts for h in hs]
     random.Random(vc.seed()).shuffle(histories)
